@@ -852,7 +852,7 @@ func c03DefaultCase(t *testing.T, h *vHarness, idx int) {
 	dmax := c03RL{has: full, v: [c03D]int64{int64(r.Range(2, 12)) * 500, int64(r.Range(2, 12)), int64(r.Range(0, 3))}}
 	smax := c03RL{has: full, v: [c03D]int64{int64(r.Range(2, 12)) * 500, int64(r.Range(2, 12)), int64(r.Range(0, 3))}}
 	if r.Chance(1, 4) {
-		dmax.has[2] = false // a max that lacks a dimension
+		dmax.has[2], dmax.v[2] = false, 0 // a max that lacks a dimension
 	}
 	suit := newPluginTestSuit(t, nil, func(a *config.ElasticQuotaArgs) {
 		a.DefaultQuotaGroupMax = dmax.list()
